@@ -77,6 +77,7 @@ def check(ctx: Ctx, ev: Evidence) -> list[Finding]:
     out: list[Finding] = []
     ev.rule("C18-R0", "order-invariance: offsets flow only into comparisons, container positions, sorted and the `e - s == 0` idiom", 5)
     ev.rule("C18-R1", "order-type evaluation of add / remove / coalesce against the interval-set specification (denotation, invariant, ascending order, flag, refusal)", 60)
+    ev.rule("C18-R3", "histories of up to 3 additions (every arrival order of disjoint ranges) from a freshly constructed tracker, each followed by a removal and coalescing: the tracker has no hidden state beside the map", 6)
     ev.rule("C18-R2", "structural companions: every raise precedes any mutation on its path; mutating paths re-sort; the flag is set iff a mutation is on the path", 4)
     _r0(ctx, ev, out)
     K = 2 if ctx.tier == "quick" else 3
@@ -184,6 +185,47 @@ def check(ctx: Ctx, ev: Evidence) -> list[Finding]:
     for kind in fails:
         ev.inst("C18-R1", f"FAILED: {kind}", "violation")
     ev.sample({"example_order_type": repr(next(iter(sorted(types, key=repr))))[:200], "k_max": K, "universe": f"0..{N}"})
+    # ---- R3 histories from the constructor (guards the induction against hidden state)
+    from ..interp import Frame
+    import itertools as _it
+    base = [(0, 2), (2, 4), (6, 8)] if ctx.tier == "quick" else [(0, 2), (2, 4), (6, 8), (10, 12)]
+    n_hist = 0
+    bad_hist = None
+    for r in range(1, min(3, len(base)) + 1):
+        for combo in _it.permutations(base, r):
+            st = Store()
+            exs: list = []
+            res = sa.ip.construct(TR, [], {}, st, Frame(None, ci.module, None), ast.parse("0").body[0], exs)
+            if len(res) != 1 or exs:
+                raise AnalysisError("LostSegmentTracker() cannot be constructed abstractly")
+            ref, st = res[0]
+            cur = st
+            okh = True
+            for seg in combo:
+                rr, ee = sa.run(f"{TR}.add_lost_segment", [Tup(seg)], cur, ref)
+                if len(rr) != 1 or ee:
+                    okh = False
+                    break
+                cur = rr[0][1]
+            if okh:
+                d = cur.heap[ref.oid]["lost_segments"]
+                rep_ = [tuple(kv) for kv in d.items] if isinstance(d, Dct) else None
+                okh = rep_ is not None and _inv(rep_) is None and _spec_set(rep_) == _spec_set(list(combo))
+                if okh:
+                    rr, ee = sa.run(f"{TR}.coalesce_lost_segments", [], cur, ref)
+                    if len(rr) == 1 and not ee:
+                        d2 = rr[0][1].heap[ref.oid]["lost_segments"]
+                        rep2 = [tuple(kv) for kv in d2.items]
+                        okh = _inv(rep2) is None and _spec_set(rep2) == _spec_set(list(combo)) and not any(b == c for (a_, b), (c, d_) in zip(rep2, rep2[1:]))
+                    else:
+                        okh = False
+            n_hist += 1
+            ev.inst("C18-R3", f"history add{list(combo)} then coalesce", "ok" if okh else "violation")
+            if not okh and bad_hist is None:
+                bad_hist = combo
+    if bad_hist is not None:
+        out.append(Finding("C18-R3", "LostSegmentTracker | addition history from a fresh tracker leaves a wrong representation",
+                           f"adding the disjoint ranges {list(bad_hist)} in this order to a fresh tracker does not yield the exact ascending representation (hidden state beside the map?)", "src/cfdppy/handler/dest.py"))
     # ---- R2 structural companions
     fi = ci.methods["remove_lost_segment"]
     muts = ("pop", "update", "clear", "setdefault", "popitem")
